@@ -86,6 +86,8 @@ type fdSite struct {
 	Pos   token.Pos
 	Fork  bool
 	match bool
+	// a decision table standing for the items of its statements (rules_t6c10.go)
+	tab *fdTable
 }
 
 type fdSide struct {
@@ -114,6 +116,13 @@ type fdSide struct {
 	// fork: statements whose only effect is a store into a write-only package-level
 	// variable (rules_r4c10.go): not part of the strict residual
 	sinkStmts map[ast.Stmt]bool
+	// runs of equality tests and copies over integer variables are read as one decision
+	// table each (rules_t6c10.go); off for the first walk of a function
+	tables bool
+	// functions without a counterpart that are pure helpers (rules_t6c10.go)
+	pureFns map[types.Object]bool
+	// positions where a run is not read as a table: the other side has none to compare it with
+	noTableAt map[token.Pos]bool
 }
 
 // fdSingleDefs finds the locals of fd that are defined exactly once by a 1:1
@@ -960,6 +969,8 @@ type fdWalker struct {
 	errDest map[*ast.CallExpr]*ast.Ident
 	// error locals that are only ever assigned and compared with nil (lazily, rules_t5c10.go)
 	errUnread map[types.Object]bool
+	// runs with gotos / labels that prepare found to be decision tables: first statement -> length (rules_t6c10.go)
+	gotoRuns map[token.Pos]int
 }
 
 var fdTmpLocal = regexp.MustCompile("\x00[0-9]+\x00")
@@ -1376,6 +1387,14 @@ func (w *fdWalker) stmts(list []ast.Stmt, chain []fdCond) bool {
 	for i, st := range list {
 		if skip > 0 {
 			skip--
+			continue
+		}
+		// a decision table: one item for the run of statements (rules_t6c10.go)
+		if n := w.decisionTable(list, i, chain); n > 0 {
+			for _, x := range list[i : i+n] {
+				chain = w.staleAfter(chain, x)
+			}
+			skip = n - 1
 			continue
 		}
 		if n := w.freshCell(list, i, chain); n > 0 {
@@ -2056,6 +2075,11 @@ type fdResult struct {
 	NotOutside   map[string]string
 	PkgVars      []fdVarVerdict
 	SinkStmts    int
+	// functions read with decision tables (rules_t6c10.go): tables equal to upstream's as
+	// functions, fork tables without an equal partner
+	Tables map[string][2]int
+	// functions on one side only that are pure helpers over integers / booleans ("side:name")
+	FuncsPure []string
 }
 
 // ForkDiff compares the fork package with the upstream package.
@@ -2166,6 +2190,19 @@ func ForkDiff(fork, up *packages.Package, files map[string]bool, laxObjs map[typ
 				res.NotOutside[k] = oi.whyNot[fo]
 			}
 		}
+		// … and those that are pure helpers over integers / booleans have no behaviour of their
+		// own: each call is part of the decision table it stands in, or a `use` site (rules_t6c10.go)
+		fs.pureFns = map[types.Object]bool{}
+		var rest2 []string
+		for _, k := range rest {
+			if fo, ok := fork.TypesInfo.Defs[fs.funcs[k].Name].(*types.Func); ok && fdPureHelper(fs, fo, map[int64]bool{}, 1) != nil {
+				fs.pureFns[fo] = true
+				res.FuncsPure = append(res.FuncsPure, "fork:"+k)
+				continue
+			}
+			rest2 = append(rest2, k)
+		}
+		rest = rest2
 		res.FuncsOnlyFork = rest
 		res.PkgVars = oi.vars
 		fs.sinkStmts = oi.sinkStmts
@@ -2179,10 +2216,18 @@ func ForkDiff(fork, up *packages.Package, files map[string]bool, laxObjs map[typ
 				res.Transparent = append(res.Transparent, "upstream:"+k)
 				continue
 			}
-			res.FuncsOnlyUp = append(res.FuncsOnlyUp, k)
 			if uo != nil {
 				us.onlyHere[uo] = true
+				if fdPureHelper(us, uo, map[int64]bool{}, 1) != nil {
+					if us.pureFns == nil {
+						us.pureFns = map[types.Object]bool{}
+					}
+					us.pureFns[uo] = true
+					res.FuncsPure = append(res.FuncsPure, "upstream:"+k)
+					continue
+				}
 			}
+			res.FuncsOnlyUp = append(res.FuncsOnlyUp, k)
 		}
 	}
 	sitesOf := func(s *fdSide, k string, m []int) ([]fdSite, []fdSite) {
@@ -2221,10 +2266,10 @@ func ForkDiff(fork, up *packages.Package, files map[string]bool, laxObjs map[typ
 		w := &fdWalker{s: s, fd: fd, fn: k, hasResults: sig.Results().Len() > 0}
 		inl := fdSingleDefs(fd, s.pkg.TypesInfo, s.extraFields)
 		fdModelCutPrefix(fd, s.pkg.TypesInfo, inl)
-		w.prepare(fd, inl)
 		w.ctx = func() *fdCtx {
 			return &fdCtx{s: s, params: params, locals: map[types.Object]string{}, inline: inl, busy: map[types.Object]bool{}, w: w}
 		}
+		w.prepare(fd, inl)
 		// a local that every return statement returns at position i is the named result i
 		for v, i := range fdResultLocals(fd, s.pkg.TypesInfo, sig, inl, w.noFacts) {
 			params[v] = fmt.Sprintf("R%d", i)
@@ -2270,6 +2315,38 @@ func ForkDiff(fork, up *packages.Package, files map[string]bool, laxObjs map[typ
 				}
 			}
 			fs.noRangeSlice, us.noRangeSlice, fs.usedRangeSlice, us.usedRangeSlice = false, false, false, false
+		}
+		// Where the normal forms differ, the runs of statements that only test integer
+		// variables for equality and copy them are compared as the functions they compute
+		// (decision tables, rules_t6c10.go); that reading is exact, so it is the one kept when
+		// it leaves fewer differences — or as many, one of them a table that is then
+		// reported with an input on which the two sides go on differently.
+		if n0 := fdUnmatched(f, u) + fdUnmatched(fi, ui); n0 > 0 {
+			fs.tables, us.tables = true, true
+			fs.noTableAt, us.noTableAt = map[token.Pos]bool{}, map[token.Pos]bool{}
+			f2, fi2 := sitesOf(fs, k, align[k])
+			u2, ui2 := sitesOf(us, k, nil)
+			eq, neq, lone := fdPairTables(fi2, ui2)
+			// a table the other side has nothing to compare with is walked as the statements it is
+			for round := 0; len(lone) > 0 && round < 4; round++ {
+				for _, p := range lone {
+					fs.noTableAt[p], us.noTableAt[p] = true, true
+				}
+				f2, fi2 = sitesOf(fs, k, align[k])
+				u2, ui2 = sitesOf(us, k, nil)
+				eq, neq, lone = fdPairTables(fi2, ui2)
+			}
+			fs.tables, us.tables = false, false
+			fs.usedRangeSlice, us.usedRangeSlice = false, false
+			if fdHasTables(fi2) || fdHasTables(ui2) {
+				if n1 := fdUnmatched(f2, u2) + fdUnmatched(fi2, ui2); n1 < n0 || (n1 == n0 && neq > 0) {
+					f, fi, u, ui = f2, fi2, u2, ui2
+					if res.Tables == nil {
+						res.Tables = map[string][2]int{}
+					}
+					res.Tables[k] = [2]int{eq, neq}
+				}
+			}
 		}
 		if d := os.Getenv("CTVERIF_C10_DEBUG_FN"); d != "" && d == k {
 			for _, l := range []struct {
@@ -2901,10 +2978,13 @@ func (w *fdWalker) prepare(fd *ast.FuncDecl, inl map[types.Object]ast.Expr) {
 		w.noFacts[o] = true
 	}
 	hasGoto := false
+	var gotos []token.Pos
 	ast.Inspect(fd.Body, func(n ast.Node) bool {
 		switch x := n.(type) {
 		case *ast.BranchStmt:
-			hasGoto = hasGoto || x.Tok == token.GOTO
+			if x.Tok == token.GOTO {
+				gotos = append(gotos, x.Pos())
+			}
 		case *ast.FuncLit:
 			ast.Inspect(x, func(m ast.Node) bool {
 				if id, ok := m.(*ast.Ident); ok {
@@ -2917,6 +2997,8 @@ func (w *fdWalker) prepare(fd *ast.FuncDecl, inl map[types.Object]ast.Expr) {
 		}
 		return true
 	})
+	// (gotos inside a run that is read as a decision table are part of that table, rules_t6c10.go)
+	hasGoto = w.gotosOutsideTables(fd, gotos)
 	w.facts = &fdState{m: map[fdPath]byte{}}
 	if hasGoto {
 		w.facts = nil
